@@ -43,8 +43,14 @@ def k_festival_next(eng, which):
                 return True, idx
             if callee == owner + "::get_day" and a[0] is rec:
                 return True, day
-            if callee in ("SolarDay::get_year", "LunarDay::get_year"):
+            if callee == ("SolarDay::get_year" if which == "solar" else "LunarDay::get_year") and not (a and isinstance(a[0], Rec) and a[0].name == "civil_day_of_the_lunar_day"):
                 return True, year      # the festival's own day (field or getter): the year the festival was built for
+            if which == "lunar" and callee == "LunarDay::get_solar_day":
+                return True, Rec(c, "civil_day_of_the_lunar_day", "SolarDay")
+            if which == "lunar" and callee == "SolarDay::get_year" and a and isinstance(a[0], Rec) and a[0].name == "civil_day_of_the_lunar_day":
+                gy = c.fresh_value("civil_year_of_the_festival_day", "isize")      # the lunar year or the one after it (late-year festivals)
+                path.pc.append(T("(<= %s %s (+ %s 1))" % (year.s, gy.s, year.s), "Bool"))
+                return True, gy
             if callee == "AbstractCulture::index_of" and len(a) == 3 and isinstance(a[1], T) and isinstance(a[2], T) and a[2].c:
                 return True, smod(a[1], a[2].c)       # 11.a
             return base(c, fr, callee, args, path)
